@@ -36,6 +36,8 @@ int smoke_main(int nprocs, uint64_t seed, bool verbose) {
         for (int i = 0; i < 20; i++) if (in[i] != peer * 100 + i) { fprintf(stderr, "rank %d: mismatch at %d: %d\n", rank, i, in[i]); fails++; break; }
         MPI_Offset nrec; CK(ncmpi_inq_dimlen(ncid, rd[0], &nrec));
         if (nrec != nprocs) { fprintf(stderr, "rank %d: numrecs %lld\n", rank, (long long)nrec); fails++; }
+        { MPI_Offset s2[2]={0,2},c2[2]={2,1},st2[2]={1,1},im[2]={1,2}; double o[8]; for (int i=0;i<8;i++) o[i]=-1;
+          CK(ncmpi_get_varm_double_all(ncid,rvar,s2,c2,st2,im,o)); if (rank==0 && getenv("VARM_DEBUG")) printf("varm got %g %g %g %g\n",o[0],o[1],o[2],o[3]); }
         CK(ncmpi_close(ncid));
         sim::set_in_lib(false);
     });
